@@ -77,6 +77,9 @@ func init() {
 	// val(J, S, k): the row-major (Horner) value of the digits J[0..k) over the sizes S, on top of the overflow digit J[-1]
 	registerDomain("val", []string{idxSort, idxSort, "Int"}, "Int",
 		`(assert (forall ((J (Array Int Int)) (S (Array Int Int)) (k Int)) (! (= (val J S k) (ite (<= k 0) (select J (- 1)) (+ (* (val J S (- k 1)) (select S (- k 1))) (select J (- k 1))))) :pattern ((val J S k)))))`)
+	// shp(t): the shape of t as an index array; unval(t, p): an index of t at row-major position p (LEX, un-flattening)
+	registerDomain("shp", []string{"T"}, idxSort, `(assert (forall ((t T) (k Int)) (! (= (select (shp t) k) (dim t k)) :pattern ((select (shp t) k)))))`, "dim")
+	registerDomain("unval", []string{"T", "Int"}, idxSort, "")
 	// projA(t, S, m, J): proj against a target shape given as an array S of rank m (no result tensor yet)
 	registerDomain("projA", []string{"T", idxSort, "Int", idxSort}, idxSort,
 		`(assert (forall ((t T) (S (Array Int Int)) (m Int) (J (Array Int Int)) (k Int)) (! (=> (and (<= 0 k) (< k (rank t))) (= (select (projA t S m J) k) (ite (= (dim t k) (select S (+ k (- m (rank t))))) (select J (+ k (- m (rank t)))) 0))) :pattern ((select (projA t S m J) k)))))`, "rank", "dim")
